@@ -1,5 +1,5 @@
 CONSTANTS
-  MaxSet = 3
+  MaxSet = 2
   MaxDup = 1
   ParseBeforeShadowTest = FALSE
 INIT Init
